@@ -14,7 +14,7 @@
 #include "c13_gen.h"
 #include "verif.h"
 
-struct in_t { unsigned char reg; int idx; };
+struct in_t { unsigned char reg; int idx; unsigned char any; };
 V_DEFINE_IN
 
 static int g_called;
@@ -57,6 +57,51 @@ static int id_of(int reg, const char *name)
 #undef X
     }
     return ID_NONE;
+}
+
+static const char *const ALL_DS[] = {
+#define X(n) #n,
+    DS_LIST
+#undef X
+    "nosuch" };
+static const char *const ALL_FI[] = {
+#define X(n) #n,
+    FI_LIST
+#undef X
+    "nosuch" };
+static const char *const ALL_OU[] = {
+#define X(n) #n,
+    OU_LIST
+#undef X
+    "nosuch" };
+
+/* a name of ANY build (or an unknown one): it exists in THIS build iff it is literally in the build's names array;
+ * a switched-off feature is simply an unknown name */
+void harness_anyname(void)
+{
+    char buf[8];
+    V_HAVOC_IN();
+    int reg = IN.reg % 3;
+    unsigned nall = (reg == 0) ? sizeof ALL_DS / sizeof ALL_DS[0] : (reg == 1) ? sizeof ALL_FI / sizeof ALL_FI[0] : sizeof ALL_OU / sizeof ALL_OU[0];
+    V_ASSUME(IN.any < nall);
+    const char *name = (reg == 0) ? ALL_DS[IN.any] : (reg == 1) ? ALL_FI[IN.any] : ALL_OU[IN.any];
+    int count = (reg == 0) ? snoopy_datasourceregistry_getCount() : (reg == 1) ? snoopy_filterregistry_getCount() : snoopy_outputregistry_getCount();
+    int enabled = 0;
+    for (int i = 0; i < 45; i++) {
+        if (i >= count) break;
+        const char *ni = (reg == 0) ? snoopy_datasourceregistry_getName(i) : (reg == 1) ? snoopy_filterregistry_getName(i) : snoopy_outputregistry_getName(i);
+        if (strcmp(ni, name) == 0) enabled = 1;
+    }
+    int exists = (reg == 0) ? snoopy_datasourceregistry_doesNameExist(name) : (reg == 1) ? snoopy_filterregistry_doesNameExist(name) : snoopy_outputregistry_doesNameExist(name);
+    V_ASSERT((exists != 0) == enabled, "C13: a name exists exactly when its feature is switched on in this build (a switched-off feature is an unknown name)");
+    g_called = ID_NONE;
+    int r;
+    if (reg == 0) r = snoopy_datasourceregistry_callByName(name, buf, sizeof buf, "");
+    else if (reg == 1) r = snoopy_filterregistry_callByName(name, "");
+    else r = snoopy_outputregistry_callByName(name, "m", "");
+    if (!enabled) V_ASSERT(g_called == ID_NONE && r == -1, "C13: calling a switched-off or unknown name runs nothing");
+    else V_ASSERT(g_called == id_of(reg, name), "C13: an available name invokes ITS OWN implementation (looked up among all names)");
+    V_WITNESS();
 }
 
 void harness(void)
